@@ -9,6 +9,7 @@ import (
 	"encoding/hex"
 	"fmt"
 	"io/fs"
+	"net/http"
 	"os"
 	"path/filepath"
 	"sort"
@@ -33,6 +34,12 @@ type E2EOpts struct {
 	ExtraKeys int    // further keyring entries (copies of the repository key under other names): the keyring is a list of several entries
 	Tags      []string
 	ExtraOpts []build.Option
+	// several repositories (C01 repository dimension): when set these replace the single repository line /
+	// keyring entry / transport chosen above (the lines are declared inputs; RT serves every host)
+	RepoLines      []string
+	BuildRepoLines []string
+	KeyLines       []string
+	RT             http.RoundTripper
 }
 
 type E2EOut struct {
@@ -106,6 +113,15 @@ func e2eBuildAt(ic types.ImageConfiguration, repo *SRepo, repoDir string, o E2EO
 		ic.Contents.RuntimeRepositories = []string{rd}
 		ic.Contents.Keyring = []string{kp}
 	}
+	if o.RepoLines != nil {
+		ic.Contents.RuntimeRepositories = append([]string{}, o.RepoLines...)
+	}
+	if o.BuildRepoLines != nil {
+		ic.Contents.BuildRepositories = append([]string{}, o.BuildRepoLines...)
+	}
+	if o.KeyLines != nil {
+		ic.Contents.Keyring = append([]string{}, o.KeyLines...)
+	}
 	for k := 0; k < o.ExtraKeys; k++ {
 		name := fmt.Sprintf("extra-%d.rsa.pub", (k*5+3)%11)
 		switch {
@@ -129,7 +145,9 @@ func e2eBuildAt(ic types.ImageConfiguration, repo *SRepo, repoDir string, o E2EO
 	} else {
 		opts = append(opts, build.WithSBOMFormats(nil))
 	}
-	if o.HTTP != nil {
+	if o.RT != nil {
+		opts = append(opts, build.WithTransport(o.RT))
+	} else if o.HTTP != nil {
 		opts = append(opts, build.WithTransport(o.HTTP))
 	}
 	if o.CacheDir != "" {
